@@ -35,13 +35,13 @@ structure Shape (c : Cfg) where
   gl : Ord
   gk : Nat
   hdecr : c.proto.decr = [.rmwSub 1 od, .branch .eq (.lit 0) dthn .overflow dels .done]
-  hdthn : noStoreArm dthn = true
-  hdels : noStoreArm dels = true
+  hdthn : fenceArm dthn = true
+  hdels : fenceArm dels = true
   hincr : c.proto.incr = [.load il, .casLoop w b so fo, .ret .overflow]
   hbound : b.eval c.ceil ≤ c.ceil
   huniq : c.proto.isUnique = [.load ul, .branch .eq (.lit 0) uthn (.bool true) uels (.bool false)]
-  huthn : noStoreArm uthn = true
-  huels : noStoreArm uels = true
+  huthn : fenceArm uthn = true
+  huels : fenceArm uels = true
   hget : c.proto.get = [.load gl, .ret (.oldPlus gk)]
 
 theorem Shape.ofOk {c : Cfg} (h : ShapeOk c) : Nonempty (Shape c) := by
